@@ -130,11 +130,11 @@ impl Circuit<F> for VerifCircuit {
                 verifier.constrain_acc_as_public_input_with_committed_scalars(&mut layouter, &a)?;
             }
             Mode::AccBetweenNatives { shape, acc, before, after } => {
-                let b = scalar_chip.assign(&mut layouter, *before)?;
+                let b: midnight_circuits::types::AssignedNative<F> = scalar_chip.assign(&mut layouter, *before)?;
                 scalar_chip.constrain_as_public_input(&mut layouter, &b)?;
                 let a = assign_acc(&mut layouter, shape, acc)?;
                 verifier.constrain_as_public_input(&mut layouter, &a)?;
-                let c = scalar_chip.assign(&mut layouter, *after)?;
+                let c: midnight_circuits::types::AssignedNative<F> = scalar_chip.assign(&mut layouter, *after)?;
                 scalar_chip.constrain_as_public_input(&mut layouter, &c)?;
             }
         }
